@@ -113,6 +113,17 @@ def _mutate(rng, v):
     r = rng.random()
     if r < 0.45:
         return w
+    if w['t'] == 'dict' and r >= 0.9:
+        # one key more, or one key less: a strict sub-/super-mapping
+        if w['v'] and rng.random() < 0.5:
+            w['v'].pop(rng.randrange(len(w['v'])))
+        else:
+            fresh = [k for k in ['a', 'b', 'c', 'k', 'z'] if k not in {k for k, _ in w['v']}]
+            w['v'].insert(rng.randrange(len(w['v']) + 1), [rng.choice(fresh), _gen_pv(rng, 0, True)])
+        return w
+    if w['t'] in ('list', 'tuple') and r >= 0.93:
+        w['v'].insert(rng.randrange(len(w['v']) + 1), _gen_pv(rng, 0, True))       # one element more
+        return w
     if w['t'] == 'dict' and w['v']:
         if r < 0.6:
             rng.shuffle(w['v'])
@@ -207,6 +218,17 @@ def cases(rng, tier, worker, nworkers):
     for i in range(n):
         yield D.gen_case(rng, PROP, faults=FAULTS or (i % 5 == 0), size=8 if i % 3 else 14)
     # the changes-only test itself: Comparator.is_equal against the model, Python == against the spec
+    if worker == 0:
+        n1, n2, s1 = {'t': 'num', 'v': 1, 'py': 'int'}, {'t': 'num', 'v': 2, 'py': 'int'}, {'t': 'str', 'v': 'a'}
+        small = [{'t': 'dict', 'v': []}, {'t': 'dict', 'v': [['a', n1]]}, {'t': 'dict', 'v': [['a', n1], ['b', n2]]},
+                 {'t': 'dict', 'v': [['b', n2], ['a', n1]]}, {'t': 'dict', 'v': [['a', n1], ['b', {'t': 'none'}]]},
+                 {'t': 'dict', 'v': [['a', {'t': 'none'}]]}, {'t': 'dict', 'v': [['z', n1]]},
+                 {'t': 'list', 'v': []}, {'t': 'list', 'v': [n1]}, {'t': 'list', 'v': [n1, n2]}, {'t': 'tuple', 'v': [n1]},
+                 {'t': 'tuple', 'v': [n1, n2]}, {'t': 'list', 'v': [{'t': 'dict', 'v': [['a', n1]]}]},
+                 {'t': 'list', 'v': [{'t': 'dict', 'v': [['a', n1], ['b', n2]]}]}, n1, s1, {'t': 'none'}]
+        for a in small:                 # every ordered pair of a few small containers: sub-/super-mappings, prefixes …
+            for b in small:
+                yield {'prop': 'C03', 'kind': 'equal', 'a': a, 'b': b}
     for i in range(2500 if tier == 'quick' else 400000 // nworkers):
         a = _gen_pv(rng, 2, plain_only=(i % 3 == 0))
         yield {'prop': 'C03', 'kind': 'equal', 'a': a, 'b': _mutate(rng, a)}
